@@ -37,12 +37,8 @@ func (l *ScriptedLimit) OnSample(start int64, rtt int64, inFlight int, didDrop b
 	l.mu.Lock()
 	defer l.mu.Unlock()
 	l.n++
-	if len(l.script) > 0 {
-		i := l.n
-		if i > len(l.script) {
-			i = len(l.script)
-		}
-		l.est = l.script[i-1]
+	if l.n <= len(l.script) {
+		l.est = l.script[l.n-1] // afterwards OnSample leaves the estimate alone, like a settable limit
 	}
 	rec := J{"rtt": rtt / int64(tickDur), "inflight": inFlight, "drop": didDrop}
 	if rtt%int64(tickDur) != 0 {
@@ -71,6 +67,7 @@ type limOp struct {
 	Op      string `json:"op"`
 	Key     string `json:"key"`
 	D       int    `json:"d,omitempty"`
+	V       int    `json:"v"`
 	I       int    `json:"i,omitempty"`
 	Outcome string `json:"outcome,omitempty"`
 }
@@ -166,6 +163,10 @@ func (s *limSUT) apply(op limOp) (res J, err error) {
 		}
 	case "adv":
 		time.Sleep(time.Duration(op.D) * tickDur)
+	case "ext":
+		s.lim.mu.Lock()
+		s.lim.est = op.V
+		s.lim.mu.Unlock()
 	case "comp":
 		if op.I < 1 || op.I > len(s.ls) {
 			return nil, fmt.Errorf("no outstanding listener %d", op.I)
@@ -296,6 +297,8 @@ func TestLimiterRandom(t *testing.T) {
 					op = limOp{Op: "comp", I: r.between(1, len(s.ls)), Outcome: o}
 				case x < 80:
 					op = limOp{Op: "acq", Key: r.pick(keys)}
+				case x >= 96:
+					op = limOp{Op: "ext", V: []int{-3, 0, 1, 2, 4, 7, 12}[r.intn(7)]}
 				default:
 					op = limOp{Op: "adv", D: r.between(1, 4)}
 				}
